@@ -759,6 +759,18 @@ def repo_root():
 
 
 def main(mod, argv=None):
+    """exit code of the check; any exception of the machinery itself is exit 2 (no verdict), never 1"""
+    try:
+        return _main(mod, argv)
+    except SystemExit:
+        raise
+    except BaseException as e:  # noqa
+        traceback.print_exc()
+        print("HARNESS-ERROR uncaught %s: %s" % (type(e).__name__, str(e)[:300]), file=sys.stderr)
+        return 2
+
+
+def _main(mod, argv=None):
     import argparse
     ap = argparse.ArgumentParser()
     ap.add_argument("--tier", default=os.environ.get("VERIF_TIER", "quick"))
